@@ -146,8 +146,13 @@ def fold_level1(ctx, rep, prog, FN, site):
             n += 1
             items = [some(intervals.build_set(env, s)) for s in sets]
             cls = "%s order:%s" % (" ".join(sstr(s) for s in sets), order_str(w))
+            cx = Ctx()
             try:
-                r, it = gram.run_with_leaf(prog, FN, ListV(items), overrides=dict(intervals.LEVEL1))
+                r, it = gram.run_with_leaf(prog, FN, ListV(items), ctx=cx, overrides=dict(intervals.LEVEL1))
+                if cx.decisions:
+                    # the fold asked something the order abstraction leaves open (a field of a version, whether it is a
+                    # prerelease): version tokens do not decide it
+                    raise Inconclusive("the fold reads the versions themselves (%s)" % ", ".join(sorted(set(cx.labels))))
                 lst = it.strip(r)
                 if isinstance(lst, Adt) and lst.name == "std::option::Option":
                     lst = ListV(list(lst.fields))
@@ -333,15 +338,30 @@ def or_obligations(ctx, rep, prog, g):
         rep.analysed_item("%s interpreted on %d (alternative lists, world, gate tags) cases" % (site, ncase))
     n = 3 if not ctx.thorough else 4
     cnt = 0
+    pending = []
     for k in range(1, n + 1):
         for inh in setalg.worlds(k):
             for r in setalg.run_satisfies(prog, k, inh):
                 cnt += 1
                 if "inconclusive" in r:
-                    rep.inconc("%s: %s" % (rule, r["inconclusive"][0]), r["inconclusive"][1])
+                    pending.append(r["inconclusive"])
                 elif r["problems"]:
                     rep.fail(rule, "range::Range::satisfies|%s|n=%d %s" % (rule, k, r["problems"][0][0]), r["problems"][0][1])
                 else:
                     rep.ok(rule)
                     rep.path((rule, r.get("sig")))
     rep.analysed_item("range::Range::satisfies interpreted on %d (alternatives, world, probe) cases" % cnt)
+    if pending:
+        # Range::satisfies does not hand each alternative to BoundSet::satisfies as a whole (it looks inside, or calls a
+        # differently shaped helper): opaque alternatives do not apply. Decided on real alternatives instead (the table of
+        # C03: one or two one-token alternatives x every valuation of the gate atoms, answer = OR of the alternatives' own)
+        from .. import intervals
+        from .c03 import range_satisfies
+        before = len(rep.inconclusive)
+        range_satisfies(ctx, rep, prog, intervals.Env(prog))
+        if rep.rules["R-SAT"]["failed"] == 0 and len(rep.inconclusive) == before:
+            rep.notes.append("%s: Range::satisfies is outside the opaque-alternative abstraction (%s); decided by R-SAT on real "
+                             "alternatives" % (rule, pending[0][0]))
+        else:
+            for reason, where in pending[:20]:
+                rep.inconc("%s: %s" % (rule, reason), where)
